@@ -474,7 +474,7 @@ type buildChecker struct {
 	s *sandbox
 }
 
-func isNasm(inv invocation) bool    { return len(inv.Argv) > 0 && filepath.Base(inv.Argv[0]) == "nasm" }
+func isNasm(inv invocation) bool { return len(inv.Argv) > 0 && filepath.Base(inv.Argv[0]) == "nasm" }
 func compiles(invs []invocation) []invocation {
 	var out []invocation
 	for _, i := range invs {
